@@ -326,6 +326,42 @@ pub fn run(ctx: &Ctx) -> i32 {
             }
         }
     }
+    // (c2) no documented name contains a character outside ASCII: a name with one letter replaced
+    //      by any non-ASCII character of the Basic Multilingual Plane is no command (whatever that
+    //      character's lower- or upper-case form is)
+    {
+        let mut names: Vec<(String, String)> = DOCUMENTED.iter().map(|(n, _, a)| (n.to_string(), a.to_string())).collect();
+        names.extend([("quit".to_string(), String::new()), ("exit".to_string(), String::new()), ("echo".to_string(), " hi".to_string()), ("q".to_string(), String::new()), ("x".to_string(), String::new())]);
+        let mut slots: Vec<(usize, usize)> = Vec::new();
+        for (ni, (n, _)) in names.iter().enumerate() {
+            for (p, ch) in n.char_indices() {
+                if ch != ' ' {
+                    slots.push((ni, p));
+                }
+            }
+        }
+        let parts = pooled(None, slots.len(), 1, Acc::new, |acc, si| {
+            let (ni, p) = slots[si];
+            let (name, args) = &names[ni];
+            for cp in 0x80u32..0x1_0000 {
+                let Some(ch) = char::from_u32(cp) else { continue };
+                if ch.is_control() || ch.is_whitespace() {
+                    continue;
+                }
+                acc.evaluations += 1;
+                let text = format!("{}{}{}{}", &name[..p], ch, &name[p + 1..], args);
+                match guard(|| verif_parse_command(&text)) {
+                    Ok(Err(_)) => acc.nontrivial += 1,
+                    Ok(Ok(c)) => acc.violation(format!("C14/name/non-ascii-spelling-accepted/{}", c.split(|x: char| !x.is_alphanumeric()).next().unwrap_or("")), format!("`{text}` (U+{cp:04X} in place of `{}`) is no documented command but parsed to {c}", &name[p..p + 1]), json!({"line": text})),
+                    Err(stopped) => acc.violation(format!("C14/name/panic/{}", stopped.panic_site()), format!("`{text}` made the parser panic: {}", stopped.short()), json!({"line": text})),
+                }
+            }
+        });
+        for p in parts {
+            acc.merge(p);
+        }
+        acc.gate("names-swept");
+    }
     // only the space separates a command from its arguments: a name glued to anything by another
     // white-space character is not a documented command line (and must not be read as the bare
     // command with the rest dropped)
@@ -594,9 +630,9 @@ pub fn run(ctx: &Ctx) -> i32 {
         ctx,
         acc,
         Level { category: "model_checking", bfs: None },
-        "bounded-exhaustive enumeration: (a) every string of length 1..=5 (quick) / 6 (thorough) over the 19-character alphabet {+ - # x o b 0 1 7 9 a f g ^ r _ é ı Ų} in each of six argument positions (integer value, step count, location of print / move, address of goto / break add), (a2) every non-control character of the Basic Multilingual Plane (thorough: planes 0-3; the argument separator space and the command separator `;` excepted) at 14 places of a token ({c}, 1{c}, {c}1, x{c}f, x1{c}, r{c}, r0{c}, {c}0, lab{c}, {c}lab, ^{c}, ^1{c}, #{c}5, lab+{c}) in the same six positions, parsed by the real command parser and by the reference recogniser of the documented grammar: same acceptance and, when accepted, the same command with the same values (Debug rendering); (b) every value 0..65535 and -1..-32768 in every documented spelling (sign before or after the prefix, optional leading zero, 4 radices, letter case, leading zeros) as integer, as address and as PC offset, plus the i32 boundary and the values MAX/radix (+1) in each radix, bare and followed by label characters or an offset, and tokens of 250-260 and 510-514 digits; (c) every name documented in help.txt in three letter cases, every name glued to a rest by a white-space character other than the space (rejected), and every word of <= 3 letters with four argument shapes (totality, case-insensitivity); (d) every token of length <= 3 (thorough 4, stride 5) through the real debugger (`move r1 T`, `goto T`, `break add T`) against the reference debugger: accepted tokens have exactly the documented effect, rejected ones none; (e) 18 scripts (incl. 2-, 3- and 4-byte characters) x every split point between --command and stdin x ';'/newline per gap x trailing separator through the real binary: identical exit status, stdout and stderr; (e2) scripts of 300, 5000 and 20000 `move r1 #i` commands and a final `print r1` through five transports (--command with `;` / with newlines, half and half, stdin lines, stdin one line): the last value is printed, and all transports agree. A seeded random supplement of longer strings with multi-byte characters is run and reported separately (sampling, not part of the exhaustive claim). non-trivial = accepted-and-equal parses + agreeing sessions / variants",
+        "bounded-exhaustive enumeration: (a) every string of length 1..=5 (quick) / 6 (thorough) over the 19-character alphabet {+ - # x o b 0 1 7 9 a f g ^ r _ é ı Ų} in each of six argument positions (integer value, step count, location of print / move, address of goto / break add), (a2) every non-control character of the Basic Multilingual Plane (thorough: planes 0-3; the argument separator space and the command separator `;` excepted) at 14 places of a token ({c}, 1{c}, {c}1, x{c}f, x1{c}, r{c}, r0{c}, {c}0, lab{c}, {c}lab, ^{c}, ^1{c}, #{c}5, lab+{c}) in the same six positions, parsed by the real command parser and by the reference recogniser of the documented grammar: same acceptance and, when accepted, the same command with the same values (Debug rendering); (b) every value 0..65535 and -1..-32768 in every documented spelling (sign before or after the prefix, optional leading zero, 4 radices, letter case, leading zeros) as integer, as address and as PC offset, plus the i32 boundary and the values MAX/radix (+1) in each radix, bare and followed by label characters or an offset, and tokens of 250-260 and 510-514 digits; (c) every name documented in help.txt in three letter cases, every such name with each of its letters replaced by each non-ASCII character of the Basic Multilingual Plane (rejected), every name glued to a rest by a white-space character other than the space (rejected), and every word of <= 3 letters with four argument shapes (totality, case-insensitivity); (d) every token of length <= 3 (thorough 4, stride 5) through the real debugger (`move r1 T`, `goto T`, `break add T`) against the reference debugger: accepted tokens have exactly the documented effect, rejected ones none; (e) 18 scripts (incl. 2-, 3- and 4-byte characters) x every split point between --command and stdin x ';'/newline per gap x trailing separator through the real binary: identical exit status, stdout and stderr; (e2) scripts of 300, 5000 and 20000 `move r1 #i` commands and a final `print r1` through five transports (--command with `;` / with newlines, half and half, stdin lines, stdin one line): the last value is printed, and all transports agree. A seeded random supplement of longer strings with multi-byte characters is run and reported separately (sampling, not part of the exhaustive claim). non-trivial = accepted-and-equal parses + agreeing sessions / variants",
         true,
-        &["strings-enumerated", "transport-variants-agree", "characters-swept", "long-scripts-agree"],
+        &["strings-enumerated", "transport-variants-agree", "characters-swept", "long-scripts-agree", "names-swept"],
         &["reference grammar = refmodel::cmdlang, validated against the repository's own parser tests by `lacemc selftest`", "negative step counts are not judged (help.txt says Integer, a code comment says non-positive means 1, the code casts to u16)"],
         json!({"max_len": max_len, "random_supplement_tokens": sampled, "transport_variants": variants.len()}),
     )
